@@ -115,19 +115,37 @@ void h_grow(void) {
   if (moved) XV_CANARY("grow.moved"); else XV_CANARY("grow.not_moved");
 }
 
-/* INT: thief-side get(idx) while the owner may grow and then re-use the old cell of idx (put at idx+old capacity).
- * ghost: 'cur_cell_value' = the value held for index idx under the *current* capacity. */
+/* INT: thief-side get(idx) while the owner keeps working.  Environment = the owner thread, as far as it can touch
+ * what get() reads: it may grow once (grow's SEQ contract: the item of every live index is copied to its cell under
+ * the doubled capacity, then the capacity is published) and afterwards push index idx+C, which is live together with
+ * idx under capacity 2C and - when bit c of idx is set - is stored in the cell idx occupied under capacity C.
+ * Index idx stays live throughout (that is what a successful CAS on top establishes for the thief afterwards),
+ * so its logical item never changes. */
 #ifdef XV_INT
-entry ghost_cur; size_t ghost_idx; unsigned env_grows;
-void xv_env(void) {
-  /* the owner: either nothing, or grow (capacity doubles; the item of every live index is copied to its new cell,
-     old cells keep their content until re-used), or a put to a different live index that happens to share the old cell */
-  if (nondet_bool()) return;
-  /* handled in h_get_int by an explicit schedule-free encoding: see below */
+struct gca* env_g; _Bool env_on, env_grew, env_moved; size_t env_c0;
+static void env_step(void);
+void xv_env(void) { if (!env_on) return; env_step(); env_step(); /* any number of owner actions: grow, then put, is the longest effective sequence */ }
+static void env_step(void) {
+  if (!env_grew) {
+    if (nondet_bool()) { if (env_moved) gB_v = gA_v; env_g->_capacity = 2 * env_c0; env_g->_buckets++; env_grew = 1; }
+  } else if (env_moved && nondet_bool()) {
+    gA_v = nondet_uptr();          /* owner's put(idx + C): same physical cell as idx had under capacity C */
+  }
 }
 #endif
 void h_get_int(void) {
 #ifdef XV_INT
+  struct gca g; unsigned c = nondet_uint(); havoc_gca(&g, c); XV_ASSUME(c <= 29);
+  size_t idx = nondet_size(); entry item = nondet_uptr();
+  env_c0 = g._capacity; env_g = &g; env_grew = 0;
+  slot_of(idx, env_c0, &gA_b, &gA_o); slot_of(idx, 2 * env_c0, &gB_b, &gB_o);
+  env_moved = !(gA_b == gB_b && gA_o == gB_o);
+  gA_v = item;
+  env_on = 1;
+  entry r = gca_get(&g, idx, nondet_int());
+  env_on = 0;
+  XV_OBL("gca.get.current_capacity", r == item);
   XV_CANARY("get_int.reached");
+  if (env_grew) XV_CANARY("get_int.grew");
 #endif
 }
